@@ -297,7 +297,7 @@ def constants_ok(model, rm, res):
   return pr
 
 
-def make_harness(model_bytes, recipe, key, n):
+def make_harness(model_bytes, recipe, key, n, part='all'):
   def h(e):
     be = symnp.set_backend(B.UF())
     be.reset()
@@ -326,7 +326,7 @@ def make_harness(model_bytes, recipe, key, n):
       pr = constants_ok(model, rm, full)
       e.check('C09.constants.true_min_max', not pr, info=pr[:3])
       # resume: every split point
-      for cut in range(1, n):
+      for cut in (range(1, n) if part != 'history' else ()):
         d1, d2 = ks[:cut], ks[cut:]
         r1 = calibrate(model_bytes, recipe, key, d1)
         snap = snapshot(r1)
@@ -338,6 +338,8 @@ def make_harness(model_bytes, recipe, key, n):
         e.check('C09.resume.same_keys_as_single_pass',
                 set(r2) == set(full), info=[key, cut,
                                             sorted(set(r2) ^ set(full))[:4]])
+      if part == 'main':
+        return
       # histories on ONE Quantizer object: an earlier calibration (on other
       # samples) must not leak into a later fresh one, a resumed session on
       # the same object equals the single pass, and results handed out
@@ -454,11 +456,22 @@ def job_cal(job):
   st = Stats()
   cands, inconc, samples = [], [], []
   for skel, rname, key, n in job.args['cases']:
+    # the single pass + resume obligations and the history scenarios are
+    # explored as two cases (each with its own path cap)
     en = Engine(solver_timeout_ms=30000, max_paths=24, wall_budget_s=60)
     en.stop_path_on_violation = True
     en.explore(make_harness(P.model_bytes_of(skel, tier),
-                            _recipe(skel, rname, tier), key, n),
+                            _recipe(skel, rname, tier), key, n, 'main'),
                stop_on_violation=True)
+    if not en.violations:
+      en2 = Engine(solver_timeout_ms=30000, max_paths=24, wall_budget_s=60)
+      en2.stop_path_on_violation = True
+      en2.explore(make_harness(P.model_bytes_of(skel, tier),
+                               _recipe(skel, rname, tier), key, n, 'history'),
+                  stop_on_violation=True)
+      en.stats.merge(en2.stats) if hasattr(en.stats, 'merge') else None
+      en.violations += en2.violations
+      en.inconclusive += en2.inconclusive
     if en.violations:
       # a violation was found and is replayed; unexplored paths do not
       # matter for the verdict of this case
